@@ -36,13 +36,13 @@ def run(ctx):
         mc(ctx, fam, "Lanes", "Lanes_MC_big.cfg", workers=16, timeout=3000, heap="16g")
         mc(ctx, fam, "Lanes", "Lanes_MC_big_mline.cfg", workers=16, timeout=3000, heap="16g")
         mc(ctx, fam, "Lanes", "Lanes_MC_big4.cfg", workers=16, timeout=3000, heap="16g")
-    pdir, plans = ctx.tlc_plans(fam, "Lanes_Gen", "Lanes_Gen.cfg", num=ctx.q(220, 5000), depth=44)
+    pdir, plans = ctx.tlc_plans(fam, "Lanes_Gen", "Lanes_Gen.cfg", num=ctx.q(200, 5000), depth=44)
     binary = ctx.go_build("c14")
     tfile = ctx.path("traces.ndjson")
     # one trace file, flushed per event: if the process dies inside neptune, vlib appends a `crash`
     # event to the history that led to it and the spec rejects it
-    ctx.harness(binary, ["-plans", pdir, "-out", tfile, "-seed", ctx.seed, "-rand", ctx.q(50, 1500),
-                         "-nstress", ctx.q(16, 600), "-nlife", ctx.q(56, 2800)],
+    ctx.harness(binary, ["-plans", pdir, "-out", tfile, "-seed", ctx.seed, "-rand", ctx.q(48, 1500),
+                         "-nstress", ctx.q(16, 600), "-nlife", ctx.q(112, 2800)],
                 timeout=2400, traces=[tfile])
     alltr = ctx.load_traces(tfile)
     mode = lambda t: t[0]["src"].split(":")[0]
